@@ -6,7 +6,7 @@ set -euo pipefail
 export GOFLAGS=-mod=mod GOPROXY=off
 unset GOTOOLCHAIN GOSUMDB || true
 V=/verif
-B=$V/.build
+B=${VERIF_BUILD:-$V/.build}
 R=${VERIF_REPO:-/repo}
 mkdir -p "$B/bin" "$B/mocks" "$B/tlc"
 
